@@ -12,15 +12,48 @@ import ast
 import z3
 
 from . import source as S
-from .values import (BoundMethod, BuiltinV, ClassV, RecV, Ref, SV, TAddr, TBool, TStruct, TVal, Unsupported, ValS)
+from .values import (BoundMethod, BuiltinV, ClassV, DictObj, PyObj, RecV, Ref, SV, TAddr, TBool, TCallable, TInt, TNd, TRec, TStruct, TVal,
+                     Unsupported, ValS, declare_ghost)
 
 is_ndarray = z3.Function("is_ndarray", ValS, z3.BoolSort())
+np_isnan = z3.Function("np_isnan", ValS, ValS)
+np_any = z3.Function("np_any", ValS, z3.BoolSort())
+apply1 = z3.Function("apply1", ValS, ValS, ValS)  # result of calling an opaque callable on one argument
+
+CallRec = z3.Datatype("CallRec")
+CallRec.declare("mk", ("call_fn", ValS), ("call_arg", ValS))
+CallRec = CallRec.create()
+declare_ghost("calllog", z3.ArraySort(z3.IntSort(), CallRec))
+declare_ghost("calllog_n", z3.IntSort())
+
+MAPPING_MIXIN = ("get", "items", "values", "keys")
+RECORD_CLASSES: dict = {}  # class qualname -> (TRec, constructor(ex, args, kwargs) -> SV)
+RECORD_METHODS: dict = {}  # (class qualname, method) -> model(ex, recv, args, kwargs)
+
+
+def _is_mapping(cls):
+    return any(q.rsplit(".", 1)[-1] in ("Mapping", "MutableMapping", "ABCMapping", "MutableStrKeyMapping") for q in S.mro(cls))
+
+
+def has_nan(v):
+    return np_any(np_isnan(v))
 
 
 class GemseoModels:
     def value_attr(self, ex, obj, attr, lineno):
         if isinstance(obj, SV) and isinstance(obj.ty, TAddr):
             return BoundMethod(obj, None, attr)
+        if isinstance(obj, SV) and isinstance(obj.ty, TRec) and obj.ty.cls is not None and (obj.ty.cls, attr) in RECORD_METHODS:
+            return BoundMethod(obj, None, f"rec:{attr}")
+        if isinstance(obj, SV) and obj.ty == TNd:
+            if attr in ("real", "data"):
+                return obj  # real dtype assumed; `.data` is only used for NaN checks
+            return BoundMethod(obj, None, attr)
+        return NotImplemented
+
+    def pyobj_attr(self, ex, ref, o, attr, lineno):
+        if attr in MAPPING_MIXIN and _is_mapping(o.cls):
+            return BoundMethod(ref, None, f"mapping.{attr}")
         return NotImplemented
 
     def call_method(self, ex, recv, name, args, kwargs, lineno):
@@ -28,6 +61,54 @@ class GemseoModels:
         if isinstance(recv, SV) and isinstance(recv.ty, TAddr):
             if name == "copy":
                 return self._copy_addr(ex, recv)
+        if isinstance(recv, SV) and recv.ty == TNd:
+            if name == "any":
+                return SV(np_any(recv.term), TBool)
+        if name.startswith("rec:") and isinstance(recv, SV):
+            return RECORD_METHODS[(recv.ty.cls, name[4:])](ex, recv, args, kwargs)
+        if name.startswith("mapping.") and isinstance(recv, Ref):
+            return self._mapping_mixin(ex, recv, name[8:], args, kwargs, lineno)
+        return NotImplemented
+
+    def _mapping_mixin(self, ex, recv, name, args, kwargs, lineno):
+        """collections.abc.Mapping mixin methods, in terms of __getitem__/__iter__ (as in CPython)."""
+        from .engine import IterV, PyRaise
+
+        st = ex.st
+        o = st.heap[recv.id]
+        if name == "get":
+            default = args[1] if len(args) > 1 else kwargs.get("default")
+            try:
+                return ex.call_repo(S.find_method(o.cls, "__getitem__"), [recv, args[0]], {}, lineno)
+            except PyRaise as e:
+                if e.cls.rsplit(".", 1)[-1] == "KeyError":
+                    return default
+                raise
+        seq = ex.to_iter(recv, lineno)
+        getitem = S.find_method(o.cls, "__getitem__")
+        if name == "keys":
+            return seq
+        if name == "values":
+            return IterV(seq.n, lambda i: ex.call_repo(getitem, [recv, seq.elem(i)], {}, lineno), concrete=None)
+        if name == "items":
+            return IterV(seq.n, lambda i: (seq.elem(i), ex.call_repo(getitem, [recv, seq.elem(i)], {}, lineno)), concrete=None)
+        return NotImplemented
+
+    def call_builtin(self, ex, name, args, kwargs, lineno, node=None):
+        if name in ("numpy.isnan", "isnan") and len(args) == 1 and isinstance(args[0], SV) and args[0].ty.sort() == ValS:
+            return SV(np_isnan(args[0].term), TNd)
+        return NotImplemented
+
+    def call_opaque(self, ex, fv, args, kwargs, lineno):
+        st = ex.st
+        if isinstance(fv, SV) and fv.ty == TCallable and len(args) == 1 and not kwargs:
+            arg = TVal.embed(st, args[0])
+            log = st.ghost_get("calllog", z3.ArraySort(z3.IntSort(), CallRec))
+            n = st.ghost_get("calllog_n", z3.IntSort())
+            st.ghost_set("calllog", z3.Store(log, n, CallRec.mk(fv.term, arg)))
+            st.ghost_set("calllog_n", n + 1)
+            ex.assumed.add("opaque callables: deterministic result apply1(f, x), no effect on the verified state (logged in ghost calllog)")
+            return SV(apply1(fv.term, arg), TNd)
         return NotImplemented
 
     def _copy_addr(self, ex, v):
@@ -48,6 +129,14 @@ class GemseoModels:
         return NotImplemented
 
     def isinstance_(self, ex, v, cls):
+        names = [c.name if isinstance(c, BuiltinV) else getattr(c, "qualname", "?") for c in (cls if isinstance(cls, tuple) else (cls,))]
+        shorts = [n.rsplit(".", 1)[-1] for n in names]
+        if isinstance(v, SV) and v.ty == TNd:
+            return "ndarray" in shorts
+        if isinstance(v, SV) and isinstance(v.ty, TRec):
+            if v.ty.cls is not None:
+                return any(S.is_subclass(v.ty.cls, n) for n in names)
+            return any(n == v.ty.rname for n in shorts)
         if isinstance(v, SV) and isinstance(v.ty, TAddr):
             names = [c.name if isinstance(c, BuiltinV) else c.qualname for c in (cls if isinstance(cls, tuple) else (cls,))]
             if all(n.rsplit(".", 1)[-1] == "ndarray" for n in names):
@@ -58,6 +147,8 @@ class GemseoModels:
         return NotImplemented
 
     def construct(self, ex, cv, args, kwargs, lineno):
+        if cv.qualname in RECORD_CLASSES:
+            return RECORD_CLASSES[cv.qualname][1](ex, args, kwargs)
         ci = S.load_class(cv.qualname)
         if ci is not None and any(b.rsplit(".", 1)[-1] == "NamedTuple" for b in ci.bases):
             names = [it.target.id for it in ci.node.body if isinstance(it, ast.AnnAssign) and isinstance(it.target, ast.Name)]
